@@ -55,12 +55,12 @@ def record_csmc(events):
         P._sample_tree_from_swarm = orig_sel
 
 
-def validate(job, traces, n, np_, outl, workers=None, timeout=3000):
+def validate(job, traces, n, np_, outl, workers=None, timeout=3000, conditional=True):
     d = env.scratch(os.path.join("tlc", job))
     path = os.path.join(d, "traces.json")
     with open(path, "w") as fh:
         json.dump(traces, fh)
-    cfg = tlc.cfg_text(constants={"N": n, "NP": np_, "OutlierOn": tlc.tla_bool(outl), "Starts": "{}"}, init="TraceInit", next_="TraceNext",
+    cfg = tlc.cfg_text(constants={"N": n, "NP": np_, "OutlierOn": tlc.tla_bool(outl), "Starts": "{}", "Conditional": tlc.tla_bool(conditional)}, init="TraceInit", next_="TraceNext",
                        invariants=["RetainedInSlot1", "LineagesHoldPrefix", "LineagesCompatible", "RetainedPathIsInput", "OutputComplete", "Accepted"])
     r = tlc.run_tlc(job, "TracePGibbs", cfg, workers=workers, timeout=timeout, environ={"TRACE_FILE": path})
     matched = set()
@@ -68,6 +68,72 @@ def validate(job, traces, n, np_, outl, workers=None, timeout=3000):
         if ln.startswith('<<"MATCHED"'):
             matched.add(int(ln.split(",")[1].strip(" >")))
     return r, [k for k in range(1, len(traces) + 1) if k not in matched]
+
+
+@contextlib.contextmanager
+def record_usmc(events):
+    """The same for the burn-in sampler: SMCSampler._init_swarm/_resample_swarm/_update_swarm and the order draw."""
+    from phyclone.smc.samplers.standard import SMCSampler as C
+    from phyclone.smc.utils import RootPermutationDistribution as R
+
+    names = {"_init_swarm": "init", "_resample_swarm": "resample", "_update_swarm": "update"}
+    if any(not hasattr(C, n) for n in names):
+        events.append({"ev": "unavailable"})
+        yield
+        return
+    orig = {n: getattr(C, n) for n in names}
+    orig_sample = R.__dict__["sample"]
+    empty = {"f": [], "o": []}
+
+    def wrap(name, evname):
+        def f(self):
+            r = orig[name](self)
+            events.append({"ev": evname, "xs": [empty if p is None else absstate.to_json(absstate.quick_key(p.tree)) for p in self.swarm.particles]})
+            return r
+        return f
+
+    def sample(tree, rng, source=None):
+        out = orig_sample.__func__(tree, rng, source=source)
+        if source is None:
+            events.append({"ev": "sigma", "sigma": [dp.idx for dp in out]})
+        return out
+
+    for n, evn in names.items():
+        setattr(C, n, wrap(n, evn))
+    R.sample = staticmethod(sample)
+    try:
+        yield
+    finally:
+        for n in names:
+            setattr(C, n, orig[n])
+        R.sample = orig_sample
+
+
+def record_burnin_runs(n, np_, outl, kernel_name, seed, iters, threshold=0.6):
+    import numpy as np
+    from phyclone.tree import FSCRPDistribution, TreeJointDistribution, Tree
+    from phyclone.smc.kernels import BootstrapKernel, SemiAdaptedKernel, FullyAdaptedKernel
+    from phyclone.smc.samplers import UnconditionalSMCSampler
+    from phyclone.smc.utils import RootPermutationDistribution
+
+    data = absstate.make_data(n, dims=1, grid=5, seed=seed, kind="int", outlier_prob=(0.2 if outl else 0.0))
+    rng = np.random.default_rng(seed)
+    td = TreeJointDistribution(FSCRPDistribution(0.8))
+    cls = {"boot": BootstrapKernel, "semi": SemiAdaptedKernel, "full": FullyAdaptedKernel}[kernel_name]
+    kern = cls(td, rng, outlier_proposal_prob=(0.1 if outl else 0.0), perm_dist=RootPermutationDistribution())
+    s = UnconditionalSMCSampler(kern, num_particles=np_, resample_threshold=threshold)
+    tree = Tree.get_single_node_tree(data)
+    traces = []
+    for _ in range(iters):
+        ev = []
+        s0 = absstate.to_json(absstate.quick_key(tree))
+        with record_usmc(ev):
+            tree = s.sample_tree(tree)
+        if ev and ev[0].get("ev") == "unavailable":
+            return None
+        ev.append({"ev": "select", "out": absstate.to_json(absstate.quick_key(tree))})
+        traces.append({"s0": s0, "events": ev})
+    return traces
 
 
 def record_runs(n, np_, outl, kernel_name, seed, iters, threshold=0.6):
@@ -101,11 +167,12 @@ def mechanism_check(ck, prop, thorough, seed):
     """Record swarms of real updates and validate them with TLC against PGibbsSM (+ model-check the machine itself).
     Returns (n_traces, unmatched list, violated invariants)."""
     mc = "---- MODULE MC_PGSM ----\nEXTENDS PGibbsSM\nStartsDef == AllOn(Data, OutlierOn)\n====\n"
-    cfg = tlc.cfg_text(constants={"N": 3, "NP": 2, "OutlierOn": "TRUE", "Starts": "<- StartsDef"},
-                       invariants=["RetainedInSlot1", "LineagesHoldPrefix", "LineagesCompatible", "RetainedPathIsInput", "OutputComplete"])
-    r = tlc.run_tlc("%s_pgsm" % prop.lower(), "MC_PGSM", cfg, mc_text=mc, timeout=1500)
-    tlc.require_ok(r, "PGibbsSM")
-    ck.add_tlc("PGibbsSM N=3 NP=2 outliers on: structural invariants of the conditional SMC pass from every start forest", r)
+    for cond in (True, False):
+        cfg = tlc.cfg_text(constants={"N": 3, "NP": 2, "OutlierOn": "TRUE", "Starts": "<- StartsDef", "Conditional": tlc.tla_bool(cond)},
+                           invariants=["RetainedInSlot1", "LineagesHoldPrefix", "LineagesCompatible", "RetainedPathIsInput", "OutputComplete"])
+        r = tlc.run_tlc("%s_pgsm%d" % (prop.lower(), cond), "MC_PGSM", cfg, mc_text=mc, timeout=1500)
+        tlc.require_ok(r, "PGibbsSM")
+        ck.add_tlc("PGibbsSM N=3 NP=2 outliers on, %s SMC: structural invariants from every start forest" % ("conditional" if cond else "unconditional (burn-in)"), r)
     total, unmatched_all, violated = 0, [], []
     k = 0
     for (n, np_, outl) in ((3, 2, True), (4, 3, False)) + (((4, 2, True), (5, 3, True)) if thorough else ()):
@@ -125,4 +192,21 @@ def mechanism_check(ck, prop, thorough, seed):
         ck.traces_validated += len(traces) - len(un)
         violated += rv.violated
         unmatched_all += [traces[i - 1] for i in un]
+        # burn-in (unconditional) sampler on the same sizes
+        btr = []
+        for kn in ("boot", "semi", "full"):
+            k += 1
+            tr = record_burnin_runs(n, np_, outl, kn, 100 * seed + k, (40 if thorough else 12))
+            if tr is None:
+                break
+            btr += tr
+        if btr:
+            rb, unb = validate("%s_usmc_%d_%d_%d" % (prop.lower(), n, np_, outl), btr, n, np_, outl, conditional=False)
+            if rb.errors or rb.timed_out:
+                raise tlc.TLCError("TracePGibbs (unconditional) failed: %s\n%s" % (rb.summary(), rb.out[-1500:]))
+            ck.add_tlc("TracePGibbs unconditional N=%d NP=%d outl=%d: %d recorded burn-in passes" % (n, np_, outl, len(btr)), rb)
+            total += len(btr)
+            ck.traces_validated += len(btr) - len(unb)
+            violated += rb.violated
+            unmatched_all += [btr[i - 1] for i in unb]
     return total, unmatched_all, violated
